@@ -36,6 +36,7 @@ class Contract:
         self.ghost_loop = {}  # (n, 'begin'|'end') -> [stmts]
         self.has_assigns = False
         self.lets = []        # textual abbreviations: let NAME = text
+        self.cbmc_only = set()   # (kind, index) of clauses that are not evaluated natively (ghost state)
         self.target = name
 
     def loop(self, n):
@@ -60,7 +61,7 @@ def check_ghost(stmt, where):
         f = m.group(1)
         if f in ('if', 'else', 'sizeof'):
             continue
-        if not (f.startswith('spec_') or f.startswith('vf_') or f.startswith('__CPROVER_')):
+        if not (f.startswith('spec_') or f.startswith('vf_') or f.startswith('__CPROVER_') or re.match(r'^(VF_F[A-Z]+|[A-Z]_[A-Z]+|DEQ|T_REFL)$', f)):
             raise ContractError('%s: ghost statement calls %r' % (where, f))
     if '*' in re.sub(r'\*\s*[0-9(A-Za-z_]', '', s) and False:
         pass
@@ -79,8 +80,9 @@ def parse_file(path):
         if raw[0] in ' \t' and last is not None:
             lst, idx = last
             extra = raw.strip()
-            for nm, txt in file_lets + cur.lets:
-                extra = re.sub(r'\b%s\b' % nm, '(' + txt + ')', extra)
+            for _pass in range(4):
+                for nm, txt in file_lets + cur.lets:
+                    extra = re.sub(r'\b%s\b' % nm, (lambda m, t=txt: t if ';' in t else '(' + t + ')'), extra)
             lst[idx] = lst[idx] + ' ' + extra
             continue
         line = raw.strip()
@@ -101,11 +103,14 @@ def parse_file(path):
             continue
         if cur is None:
             raise ContractError('%s: clause before "function"' % where)
-        for nm, txt in file_lets + cur.lets:
-            line = re.sub(r'\b%s\b' % nm, '(' + txt + ')', line)
-        m = re.match(r'^(requires|ensures|assigns|frees)\b\s*(.*)$', line)
+        for _pass in range(4):
+            for nm, txt in file_lets + cur.lets:
+                line = re.sub(r'\b%s\b' % nm, (lambda m, t=txt: t if ';' in t else '(' + t + ')'), line)
+        m = re.match(r'^(requires|ensures|assigns|frees)(!?)(?=\s|$)\s*(.*)$', line)
         if m:
-            kw, rest = m.groups()
+            kw, bang, rest = m.groups()
+            if bang:
+                cur.cbmc_only.add((kw, len(getattr(cur, kw))))
             lst = getattr(cur, kw)
             if kw == 'assigns':
                 cur.has_assigns = True
@@ -201,10 +206,10 @@ def loop_clauses(L, ghost=()):
     if L['has_assigns']:
         gt = [g for g in ghost_targets(ghost) if g not in L['assigns']]
         lines = list(L['assigns']) + ([', '.join(gt)] if gt else [])
-        if not lines:
-            out.append('__CPROVER_assigns()')
-        for a in lines:
-            out.append('__CPROVER_assigns(%s)' % a)
+        uncond = [a for a in lines if ':' not in a]
+        cond = [a for a in lines if ':' in a]
+        groups = ([', '.join(uncond)] if uncond else []) + cond
+        out.append('__CPROVER_assigns(%s)' % '; '.join(groups))
     for i in L['invariant']:
         out.append('__CPROVER_loop_invariant(%s)' % i)
     if L['decreases']:
@@ -340,9 +345,9 @@ def native_macros(c, params, fname=None):
             res += '(VF_OLD_%s_%d)' % (cname, olds.index(inner))
             i = k
         return res
-    posts = [desugar_implies(find_olds(e)) for e in c.ensures]
+    posts = [desugar_implies(find_olds(e)) if ('ensures', i) not in c.cbmc_only else '1 /* cbmc-only clause */' for i, e in enumerate(c.ensures)]
     posts = [p.replace('__CPROVER_return_value', '(RET)') for p in posts]
-    pre = ' && '.join('(%s)' % desugar_implies(r) for r in c.requires) or '1'
+    pre = ' && '.join('(%s)' % desugar_implies(r) for i, r in enumerate(c.requires) if ('requires', i) not in c.cbmc_only) or '1'
     pre = re.sub(r'__CPROVER_(r|w)_ok\(', r'VF_\1_OK_N(', pre).replace('VF_r_OK_N', 'VF_R_OK').replace('VF_w_OK_N', 'VF_W_OK')
     lines = []
     lines.append('#define VF_PRE_%s (%s)' % (cname, pre))
